@@ -7,6 +7,11 @@
 import Ipv8.C12.Model
 
 namespace Ipv8.C12
+
+def Op.isLoad : Op → Bool
+  | .load _ => true
+  | _ => false
+
 namespace Graph
 
 def addVerified (g : Graph) (p : Peer) : Graph :=
